@@ -167,8 +167,11 @@ class Ctx:
             "wall_s": round(time.time() - self.t0, 2),
             "violations": len(self.new_violations),
         }
-        os.makedirs(os.path.join(ROOT, "evidence"), exist_ok=True)
-        path = os.path.join(ROOT, "evidence", f"{self.pid}.json")
+        # runs against another checkout (VERIF_REPO, used to try the checks on seeded changes) must not replace the
+        # evidence of /repo itself: they write to a scratch directory instead
+        evdir = os.path.join(ROOT, ".work", "evidence-other-checkout") if os.environ.get("VERIF_REPO") else os.path.join(ROOT, "evidence")
+        os.makedirs(evdir, exist_ok=True)
+        path = os.path.join(evdir, f"{self.pid}.json")
         with open(path, "w") as fp:
             json.dump(ev, fp, indent=1, default=str)
             fp.write("\n")
